@@ -8,6 +8,10 @@ impl HiArgs {
     pub uninterp spec fn v_matches_possible(&self) -> bool;
     pub uninterp spec fn v_threads(&self) -> usize;
     pub uninterp spec fn v_quiet(&self) -> bool;
+    // the other bool getters of HiArgs exist too (independent facts about the command line), so that a
+    // body that consults the wrong one still compiles and fails its contract instead of being "unsupported"
+    pub uninterp spec fn v_quit_after_match(&self) -> bool;
+    pub uninterp spec fn v_has_implicit_path(&self) -> bool;
 
     #[verifier::external_body]
     pub(crate) fn mode(&self) -> (r: Mode) ensures r == self.v_mode() { unimplemented!() }
@@ -17,4 +21,8 @@ impl HiArgs {
     pub(crate) fn threads(&self) -> (r: usize) ensures r == self.v_threads() { unimplemented!() }
     #[verifier::external_body]
     pub(crate) fn quiet(&self) -> (r: bool) ensures r == self.v_quiet() { unimplemented!() }
+    #[verifier::external_body]
+    pub(crate) fn quit_after_match(&self) -> (r: bool) ensures r == self.v_quit_after_match() { unimplemented!() }
+    #[verifier::external_body]
+    pub(crate) fn has_implicit_path(&self) -> (r: bool) ensures r == self.v_has_implicit_path() { unimplemented!() }
 }
